@@ -614,3 +614,150 @@ func ruleFALLBACK1(c *Ctx) {
 	}
 	c.Floor("assignments of the dominant embedded fallback", n, 1)
 }
+
+func init() {
+	register(&Rule{ID: "NSPAIR-1", Doc: "the namespace stack follows the token stack whatever the options are: in jsontext every objectNamespaceStack.push()/pop() that is not a `push(); defer pop()` pair inside one block (the value-level scanners, where the option cannot change in between) is unconditional with respect to option flags — MarshalEncode/UnmarshalDecode may change AllowDuplicateNames for one call and restore it while objects opened by failing user code are still open (finding F13)", Run: ruleNSPAIR1})
+}
+
+func ruleNSPAIR1(c *Ctx) {
+	p := c.P
+	n := 0
+	for _, f := range p.FuncsIn("jsontext") {
+		if f.Body() == nil {
+			continue
+		}
+		info := f.Info()
+		k := 0
+		InspectNoLit(f.Body(), func(nd ast.Node) bool {
+			call, ok := nd.(*ast.CallExpr)
+			if !ok {
+				return true
+			}
+			op := ""
+			for _, nm := range []string{"push", "pop"} {
+				if _, ok := MethodCall(info, call, "jsontext", "objectNamespaceStack", nm); ok {
+					op = nm
+				}
+			}
+			if op == "" {
+				return true
+			}
+			// exempt: `X.push(); defer X.pop()` in one block
+			par := p.Parent(f.File, call)
+			if _, isDefer := par.(*ast.DeferStmt); isDefer {
+				return true
+			}
+			if es, ok := par.(*ast.ExprStmt); ok && op == "push" {
+				if blk, ok := p.Parent(f.File, es).(*ast.BlockStmt); ok {
+					for i, st := range blk.List {
+						if st == ast.Stmt(es) && i+1 < len(blk.List) {
+							if ds, ok := blk.List[i+1].(*ast.DeferStmt); ok {
+								if _, ok := MethodCall(info, ds.Call, "jsontext", "objectNamespaceStack", "pop"); ok {
+									return true
+								}
+							}
+						}
+					}
+				}
+			}
+			n++
+			k++
+			var fl uint64
+			for _, cc := range enclosingConds(p, f, call) {
+				fl |= flagsRead(info, cc.cond)
+			}
+			c.Oblige(fmt.Sprintf("namespace-%s-unconditional:%s#%d", op, f.Name, k), call.Pos(), fl == 0, "Namespaces."+op+"() only runs under {"+p.Flags().Names(fl)+"}: a call-scoped option (MarshalEncode/UnmarshalDecode with AllowDuplicateNames) can differ between the opening and the closing of an object that failing user code left open, after which the namespace stack and the token stack disagree — closing the object panics (`slice bounds out of range [:-1]`) or pops the namespace of the enclosing object")
+			return true
+		})
+	}
+	c.Floor("token-level namespace push/pop sites", n, 4)
+}
+
+func init() {
+	register(&Rule{ID: "POS-4", Doc: "a failure while skipping whitespace is attributed to the position before the next token on every route: in jsontext every wrapSyntacticError call inside the error branch of `pos, err = d.consumeWhitespace(pos)` passes where = 0 (PeekKind, ReadToken, ReadValue and checkEOF must report the same pointer for input truncated after a delimiter, however the calls are interleaved)", Run: rulePOS4})
+}
+
+func rulePOS4(c *Ctx) {
+	p := c.P
+	n := 0
+	for _, f := range p.FuncsIn("jsontext") {
+		if f.Body() == nil {
+			continue
+		}
+		info := f.Info()
+		k := 0
+		InspectNoLit(f.Body(), func(nd ast.Node) bool {
+			ifs, ok := nd.(*ast.IfStmt)
+			if !ok || ifs.Init == nil {
+				return true
+			}
+			as, ok := ifs.Init.(*ast.AssignStmt)
+			if !ok || len(as.Rhs) != 1 {
+				return true
+			}
+			call, ok := ast.Unparen(as.Rhs[0]).(*ast.CallExpr)
+			if !ok {
+				return true
+			}
+			if _, ok := MethodCall(info, call, "jsontext", "decoderState", "consumeWhitespace"); !ok {
+				return true
+			}
+			for _, w := range CallsIn(ifs.Body) {
+				if !FuncCall(info, w, "jsontext", "wrapSyntacticError") || len(w.Args) != 4 {
+					continue
+				}
+				n++
+				k++
+				v, isC := ConstI64(info, w.Args[3])
+				c.Oblige(fmt.Sprintf("whitespace-error-where-zero:%s#%d", f.Name, k), w.Pos(), isC && v == 0, "`"+exprString(w)+"`: an error met while skipping whitespace is reported with where="+exprString(w.Args[3])+" here and with where=0 on the sibling routes (PeekKind, ReadValue, checkEOF): for input that ends right after a ',' inside an array a bare ReadToken then reports another JSON pointer than PeekKind+ReadToken, so the error depends on how the calls are interleaved")
+			}
+			return true
+		})
+	}
+	c.Floor("wrapSyntacticError calls in whitespace-error branches", n, 2) // 6 today; a restructuring that shares one preamble keeps 2
+}
+
+func init() {
+	register(&Rule{ID: "OPT-9", Doc: "caller options are forwarded on every branch: in jsontext a function with a variadic Options parameter that re-initialises a coder (a call of encoderState.reset / decoderState.reset, whose last parameter is variadic Options) passes its own options on (`opts...`) at every such call — sibling branches of the pooled constructors (bytes.Buffer versus any other reader or writer) must not differ in the options they apply", Run: ruleOPT9})
+}
+
+func ruleOPT9(c *Ctx) {
+	p := c.P
+	n := 0
+	for _, f := range p.FuncsIn("jsontext") {
+		if f.Decl == nil || f.Body() == nil || f.Obj == nil {
+			continue
+		}
+		sig := f.Obj.Type().(*types.Signature)
+		if !sig.Variadic() {
+			continue
+		}
+		last := sig.Params().At(sig.Params().Len() - 1)
+		sl, ok := last.Type().(*types.Slice)
+		if !ok || !isNamed(sl.Elem(), pkgAlias["jsonopts"], "Options") && !strings.HasSuffix(sl.Elem().String(), ".Options") {
+			continue
+		}
+		info := f.Info()
+		k := 0
+		InspectNoLit(f.Body(), func(nd ast.Node) bool {
+			call, ok := nd.(*ast.CallExpr)
+			if !ok {
+				return true
+			}
+			fn := Callee(info, call)
+			if fn == nil || fn.Name() != "reset" {
+				return true
+			}
+			cs := fn.Type().(*types.Signature)
+			if !cs.Variadic() {
+				return true
+			}
+			n++
+			k++
+			fwd := call.Ellipsis.IsValid() && len(call.Args) > 0 && IdentObj(info, call.Args[len(call.Args)-1]) == types.Object(last)
+			c.Oblige(fmt.Sprintf("options-forwarded:%s#%d", f.Name, k), call.Pos(), fwd, "`"+exprString(call)+"` re-initialises the coder without the caller's options `"+last.Name()+"...`: on this branch every option of the call is silently ignored (the sibling branch applies them), so the same text and options decode or encode differently depending on the dynamic type of the reader or writer")
+			return true
+		})
+	}
+	c.Floor("coder reset calls in functions with variadic options", n, 6)
+}
